@@ -299,6 +299,60 @@ pub fn run(ctx: &Ctx) -> Report {
             }
         }
     }));
+    // (e) names that look special but are ordinary names where they stand: nested labels named like built-in
+    //     functions or `pc`, case variants of the reserved words, a rule parameter that shares its first path segment
+    //     with a nested label. Expected bytes are written down by hand (addresses 0..3).
+    {
+        let mut cases: Vec<(String, Option<Vec<u8>>)> = vec![];
+        for name in ["pc", "incbin", "incbinstr", "inchexstr", "le", "sizeof", "strlen", "utf8", "ascii", "assert", "TRUE", "False", "Asm", "x"] {
+            cases.push((format!("#d8 0xee\nregs:\n#d8 0xdd\n.{n}:\n#d8 .{n}, regs.{n}\n", n = name), Some(vec![0xee, 0xdd, 2, 2])));
+            cases.push((format!("#d8 0xee\nregs:\n#d8 .{n}, regs.{n}\n.{n}:\n", n = name), Some(vec![0xee, 3, 3])));
+        }
+        for name in ["TRUE", "False", "ASM", "Asm", "tRuE", "fALSE"] {
+            cases.push((format!("{n} = 5\n#d8 {n}\n", n = name), Some(vec![5])));
+            cases.push((format!("#d8 {n}\n{n} = 5\n", n = name), Some(vec![5])));
+            cases.push((format!("#d8 0xee\n{n}:\n#d8 {n}\n", n = name), Some(vec![0xee, 1])));
+            cases.push((format!("#d8 {n}\n", n = name), None));
+            cases.push((format!("#if {n}\n{{\n#d8 1\n}}\n#else\n{{\n#d8 2\n}}\n", n = name), None));
+        }
+        for name in ["sizeof", "le", "strlen", "incbin", "utf8"] {
+            cases.push((format!("#d8 0xee\n{n}:\n.x:\n#d8 {n}.x\n", n = name), Some(vec![0xee, 1])));
+        }
+        cases.push(("#ruledef\n{\n    ld {data: u8} => 0x01 @ data @ data.end`8\n}\ndata:\n#d8 1, 2, 3\n.end:\nld 0x55\n".to_string(), Some(vec![1, 2, 3, 1, 0x55, 3])));
+        cases.push(("#ruledef\n{\n    ld {data: u8} => 0x01 @ data @ data.end`8\n}\nld 0x55\ndata:\n#d8 1, 2, 3\n.end:\n".to_string(), Some(vec![1, 0x55, 6, 1, 2, 3])));
+        rep.absorb(par_cases(&cases, |(src, want), l| {
+            l.eval();
+            l.nontrivial(src);
+            l.class("special-looking-names");
+            let obs = run::assemble_str(src, &opts);
+            let bad = if obs.panicked.is_some() {
+                Some("panic")
+            } else {
+                match want {
+                    Some(bytes) => {
+                        let bits: String = bytes.iter().map(|b| format!("{:08b}", b)).collect();
+                        if !obs.success() {
+                            Some("valid program rejected")
+                        } else if obs.bits != bits {
+                            Some("a name resolves to something else than the declaration its dot-level and path determine")
+                        } else {
+                            None
+                        }
+                    }
+                    None => (!obs.failure()).then_some("reference to an undeclared name accepted"),
+                }
+            };
+            l.traces_validated += 1;
+            if let Some(b) = bad {
+                l.violation(Violation {
+                    property: ID,
+                    key: format!("special-names:{}", b),
+                    what: format!("{}: {}", b, src.replace('\n', " / ")),
+                    case: json!({"family": "special-names", "program": src, "opts": opts.to_json(), "expected": match want { Some(b) => json!({"ok": true, "hex": b.iter().map(|x| format!("{:02x}", x)).collect::<String>(), "bits_len": b.len() * 8}), None => json!({"error": "undeclared name"}) }, "observed": obs.summary()}),
+                });
+            }
+        }));
+    }
     rep.assumptions = vec!["a level-0 constant opens a new scope for following locals in this assembler; positions where that matters are Unspecified for the moved-constant family".into()];
     for c in ["ref-success", "ref-error:undefined symbol", "ref-error:duplicate symbol", "ref-error:declaration skips a nesting level", "ref-error:cyclic constant definition", "moved-constant"] {
         rep.require_class(c);
